@@ -580,7 +580,12 @@ int KSI_TreeBuilder_close(KSI_TreeBuilder *builder) {
 				root = node;
 			} else {
 				res = KSI_TreeNode_join(builder->ctx, builder->hsr, node, root, &tmp);
-				if (res != KSI_OK) goto cleanup;
+				if (res != KSI_OK) {
+					/* Keep both parts owned by the builder (every lower slot is empty by now; i > 0). */
+					builder->stack[i] = node;
+					builder->stack[i - 1] = root;
+					goto cleanup;
+				}
 
 				root = tmp;
 				tmp = NULL;
